@@ -97,7 +97,22 @@ def bytesLe : List Byte → List Byte → Bool
 def bytesCmp (a b : List Byte) : Int :=
   if a == b then 0 else if bytesLe a b then -1 else 1
 
-/-- termRange.Enumerate: the bytewise walk `next = incrementBytes next` while `next ≤ endTerm`, calling
+/-- incrementPrefixCoded (added by the repair of the numeric range walk): the next prefix coded term of the
+same shift — the bytes after the leading shift byte are base-128 digits, a digit exceeding 0x7f carries
+into the previous one; the shift byte itself is incremented without a wrap test. -/
+def incPC (bs : List Byte) : List Byte :=
+  -- direct transcription of the Go loop, from the last index down to 0
+  let rec loop (fuel i : Nat) (rv : List Byte) : List Byte :=
+    match fuel with
+    | 0 => rv
+    | fuel + 1 =>
+      let v := (rv.getD i 0#8) + 1#8
+      let rv := rv.set i v
+      if i == 0 || v.toNat ≤ 0x7f then rv
+      else loop fuel (i - 1) (rv.set i 0#8)
+  if bs.length == 0 then bs else loop bs.length (bs.length - 1) bs
+
+/-- termRange.Enumerate WITH a filter (the only production use): the walk `next = incrementPrefixCoded next` while `next ≤ endTerm`, calling
 `visit` on every term walked (the role of the dictionary filter). `fuel` caps the number of steps:
 `none` = the cap was hit (the real walk is still going). Returns the remaining fuel and the visited
 terms satisfying `keep`. -/
@@ -107,7 +122,7 @@ def enumerate (keep : List Byte → Bool) (r : TermRange) (fuel : Nat) (acc : Li
     if bytesLe next r.endTerm then
       match fuel with
       | 0 => none
-      | fuel + 1 => go fuel (incBytes next) (if keep next then next :: acc else acc)
+      | fuel + 1 => go fuel (incPC next) (if keep next then next :: acc else acc)
     else some (fuel, acc)
   go fuel r.startTerm acc
 
